@@ -96,9 +96,9 @@ var checks = map[string]checkSpec{
 		Rule: "race flavour: generated concurrent client programs over the exported methods of Writer (WriteMessages from several goroutines, Stats, Close at a generated instant, every built-in balancer, multi-topic), Reader with and without a consumer group (FetchMessage/ReadMessage, CommitMessages, SetOffset/SetOffsetAt, Offset, Lag, ReadLag, Stats, Config, Close, a second member joining), Conn (ReadBatch/ReadMessage, WriteMessages, deadline setters, Offset/ReadOffsets/ReadPartitions, Close racing with I/O), Batch (Read/ReadMessage, accessors, Close), Client/Transport (six request kinds from several goroutines, CloseIdleConnections), the balancers and the codecs, run against the simulated cluster (seeded faults, fake clock) with the goroutines free-running on 4 Ps under the Go race detector. The build overlay replaces the library's sync primitives by channel-based ones that block durably inside the bubble and synchronise only through the primitive's own channel (a mutex's edge on that mutex and nothing else); simulated connections give the detector the Write-release / Read-acquire edge internal/poll gives real sockets. Any report with a library frame on either access is a violation, de-duplicated by the pair of access sites; a report purely inside the harness is machinery trouble (exit 2).",
 	},
 	"C07": {
-		Scenarios: []scnSpec{{Name: "writer", Params: "focus=order", Share: 1}},
+		Scenarios: []scnSpec{{Name: "writer", Params: "focus=order", Share: 0.7}, {Name: "writer", Params: "close=race", Share: 0.3}},
 		Quick:     35 * time.Second, Thorough: 10 * time.Minute, Level: "exploration",
-		Rule: "Writer scenario biased to ordering hazards: small batches, several calls per submitter, lost acknowledgements and retriable errors so that a batch is retried while later batches are queued.",
+		Rule: "Writer scenario biased to ordering hazards: small batches, several calls per submitter, lost acknowledgements and retriable errors so that a batch is retried while later batches are queued. A share of the runs races Writer.Close (at seeded instants, also exactly when batch timers are due, with goroutines that lose the CPU for up to 2 ms between steps) against Async and synchronous submitters: what was accepted is still appended in submission order.",
 	},
 	"C08": {
 		Scenarios: []scnSpec{{Name: "writer", Params: "focus=limits", Share: 0.6}, {Name: "flush", Share: 0.4}},
